@@ -54,15 +54,19 @@ DecayClause(e) ==
       below == Le(tot0, e.target)
   IN IF e.res.k = "exc" THEN (IF e.res.exc = "RuntimeError" /\ ~below THEN "ok" ELSE "DecayTimeRaises:" \o e.res.exc)
      ELSE IF ~Num(e.res) \/ e.res.v.s < 0 THEN "DecayTimeIsNonNegativeNumber"
-     ELSE IF Le(e.res.v, Zero) THEN (IF Le(tot0, Mul(e.target, Add(One, Sci(1, -3)))) THEN "ok" ELSE "ZeroOnlyWhenAlreadyBelowTarget")
-     ELSE IF Lt(tot0, Mul(e.target, Sub(One, Sci(1, -3)))) THEN "ZeroWhenAlreadyBelowTarget"
+     \* zero exactly when the activity at removal is at or below the target: up to rounding between the two calculations
+     \* of the activity at removal (1e-9 relative) and up to 2e-10 uCi, below which activities are nothing (and the root
+     \* finder's own absolute tolerance); not up to the 0.1 % of the accuracy clause
+     ELSE IF Le(e.res.v, Zero) THEN (IF Le(tot0, Add(Mul(e.target, Add(One, Sci(1, -9))), Sci(2, -10))) THEN "ok" ELSE "ZeroOnlyWhenAlreadyBelowTarget")
+     ELSE IF Lt(Add(tot0, Sci(2, -10)), Mul(e.target, Sub(One, Sci(1, -9)))) THEN "ZeroWhenAlreadyBelowTarget"
      ELSE IF Gt(Abs(Sub(TotalAt(e.products, e.res.v), e.target)), Mul(e.target, Sci(1001, -6))) THEN "ActivityAtReturnedTimeIsTarget"
      ELSE "ok"
 \* same sample, different rest-time lists: same classification; both answers satisfy the post-condition (checked by DecayClause)
 \* (a time below 1e-6 h counts as zero: at target = activity at removal the two may differ by rounding)
 Zeroish(x) == Lt(x.v, Sci(1, -6))
 SameClass(a, b) == (a.k = "exc") = (b.k = "exc") /\ (Num(a) /\ Num(b) => (Zeroish(a) = Zeroish(b)))
-RestListClause(e) == IF SameClass(e.a, e.b) THEN "ok" ELSE "IndependentOfRestTimeList"
+\* (at target = activity at removal rounding decides between "already there" and a solve that may fail: no verdict there)
+RestListClause(e) == IF ("boundary" \in DOMAIN e /\ e.boundary) \/ SameClass(e.a, e.b) THEN "ok" ELSE "IndependentOfRestTimeList"
 Clause(e) == CASE e.ev = "act" -> ActClause(e) [] e.ev = "rel" -> RelClause(e) [] e.ev = "sample" -> SampleClause(e)
                [] e.ev = "decay" -> DecayClause(e) [] e.ev = "restlist" -> RestListClause(e)
 Init == l = 2
